@@ -89,6 +89,26 @@ fn one_case(ctx: &mut Ctx, index: u64, bytes: &[u8], class: &str) {
             ctx.violation("encode_err_in_memory", "encode_to_string failed".into(), index, bytes);
             return;
         };
+        // the text is the same whatever sink receives it: a sample of the maps is also written through a
+        // writer that accepts only a few bytes per call
+        if index % 4 == 1 {
+            use crate::obs::io::{FaultWriter, WriteFault};
+            let mut w = FaultWriter::new(WriteFault::None, usize::MAX);
+            w.short = vec![[1usize, 2, 3, 7, 12][(index as usize / 4) % 5]];
+            ctx.count("encodings_through_a_short_writing_sink");
+            match m.encode(&mut w) {
+                Ok(()) if w.out == enc.as_bytes() => {}
+                Ok(()) => {
+                    let k = w.out.iter().zip(enc.as_bytes()).position(|(a, b)| a != b).unwrap_or(w.out.len().min(enc.len()));
+                    ctx.violation("sink_changes_text", format!("a sink accepting {} byte(s) per call received different text than encode_to_string (first difference at byte {k}: {:?})", w.short[0], String::from_utf8_lossy(&enc.as_bytes()[k.saturating_sub(20)..(k + 20).min(enc.len())])), index, bytes);
+                    return;
+                }
+                Err(e) => {
+                    ctx.violation("encode_err_in_memory", format!("encode into a short-writing in-memory sink failed: {e:?}"), index, bytes);
+                    return;
+                }
+            }
+        }
         ctx.count(&format!("class_{class}"));
         ctx.count("encodings_checked");
         nontrivial = !m.hit_objects.is_empty() || !m.control_points.timing_points.is_empty();
